@@ -217,6 +217,7 @@ func runC14(p *Prog, r *Report) {
 	sharedMapAliasRule(p, r, "C14.R7")
 	signatureAssertRule(p, r, "C14.R8")
 	localConfigFunctionsOnlyRule(p, r, "C14.R9")
+	declaredSignatureRule(p, r, "C14.R10")
 }
 
 // guardSpec: a validation that must exist in method.Parse as `if COND { return nil, <error> }`.
